@@ -5,6 +5,8 @@ import BevySyncModel.Codec.Image
 import BevySyncModel.Codec.Message
 import BevySyncModel.Codec.Reflect
 import BevySyncModel.Generated.TextureFormats
+import BevySyncModel.Generated.Http
+import BevySyncModel.Http
 /-! `bsmodel`: runs the executable model definitions on the cases the Rust harness prints, one line
 in, one line out (`ok <id>` / `MISMATCH <id> <what>`).  Lines starting with `#` are ignored.
 Only model files are imported (no proofs, no Mathlib), so this links as a native executable.
@@ -321,12 +323,76 @@ def checkFmtName (toks : List String) : String :=
   | [n] => if (findIdx names (unhex n)).isSome then "ok" else "MISMATCH table: format name not in the regenerated table"
   | _ => "MISMATCH parse"
 
-def handle (line : String) : Option String :=
+/-! ### HTTP endpoint (stateful: per endpoint the cache after every publication) -/
+structure HttpEp where
+  v6 : Bool
+  addrText : List UInt8
+  portText : List UInt8
+  max : Nat
+  hist : Array Http.Caches
+
+structure DState where
+  eps : Array HttpEp := #[]
+
+def classOf (s : String) : Option Http.Class :=
+  if s == "mesh" then some .mesh else if s == "image" then some .image else if s == "audio" then some .audio else none
+
+def respMatches (r : Http.Response) (status cl body : String) : Bool :=
+  toString r.status == status && r.body == unhex body &&
+    (match r.contentLength with
+     | some n => cl == toString n
+     | none => cl == "chunked")
+
+def descResp (r : Http.Response) : String :=
+  s!"{r.status}/{match r.contentLength with | some n => toString n | none => "chunked"}/{r.body.length}B"
+
+def handleHttp (st : DState) (toks : List String) : DState × Option String :=
+  match toks with
+  | ["endpoint", _, fam, addr, port, max] =>
+    ({ st with eps := st.eps.push { v6 := fam == "v6", addrText := unhex addr, portText := port.toUTF8.toList,
+                                     max := max.toNat!, hist := #[Http.Caches.empty] } }, none)
+  | ["pub", ep, cls, id, bin, "URL", url] =>
+    match st.eps[ep.toNat!]?, classOf cls with
+    | some e, some c =>
+      let cur := e.hist.back?.getD Http.Caches.empty
+      let nxt := Http.publish Generated.httpServeOverwrites cur c (unhex id) (unhex bin)
+      let e' := { e with hist := e.hist.push nxt }
+      let expectUrl := Http.baseUrl (if e.v6 then .v6 e.addrText else .v4 e.addrText) e.portText ++ Http.servedPath c (unhex id)
+      let st' := { st with eps := st.eps.set! ep.toNat! e' }
+      if expectUrl == unhex url then (st', some s!"ok pub-{ep}-{e.hist.size}")
+      else (st', some s!"MISMATCH url: advertised url differs from baseUrl ++ servedPath pub-{ep}-{e.hist.size}")
+    | _, _ => (st, some "MISMATCH parse pub")
+  | ["req", id, ep, _method, path, "RESP", status, cl, body] =>
+    match st.eps[ep.toNat!]? with
+    | some e =>
+      let r := Http.route e.max (e.hist.back?.getD Http.Caches.empty) (unhex path)
+      if respMatches r status cl body then (st, some s!"ok {id}")
+      else (st, some s!"MISMATCH http: model {descResp r} vs implementation {status}/{cl} {id}")
+    | none => (st, some s!"MISMATCH parse {id}")
+  | ["creq", id, ep, lo, hi, _method, path, "RESP", status, cl, body] =>
+    match st.eps[ep.toNat!]? with
+    | some e =>
+      let ks := (List.range (hi.toNat! + 1)).filter (fun k => lo.toNat! ≤ k)
+      let okk := ks.any (fun k => match e.hist[k]? with
+        | some c => respMatches (Http.route e.max c (unhex path)) status cl body
+        | none => false)
+      if okk then (st, some s!"ok {id}")
+      else (st, some s!"MISMATCH http-linearisability: no cache state in [{lo},{hi}] explains {status}/{cl} {id}")
+    | none => (st, some s!"MISMATCH parse {id}")
+  | "req" :: id :: _ => (st, some s!"MISMATCH http: request without a response {id}")
+  | "creq" :: id :: _ => (st, some s!"MISMATCH http: request without a response {id}")
+  | _ => (st, some "MISMATCH parse http")
+
+def handle (st : DState) (line : String) : DState × Option String :=
   let line := line.trimAscii.toString
-  if line.isEmpty || line.startsWith "#" then none
+  if line.isEmpty || line.startsWith "#" then (st, none)
   else
     match line.splitOn " " with
-    | "fmtname" :: rest => some s!"{checkFmtName rest} fmtname"
+    | "fmtname" :: rest => (st, some s!"{checkFmtName rest} fmtname")
+    | "endpoint" :: rest => handleHttp st ("endpoint" :: rest)
+    | "pub" :: rest => handleHttp st ("pub" :: rest)
+    | "req" :: rest => handleHttp st ("req" :: rest)
+    | "creq" :: rest => handleHttp st ("creq" :: rest)
     | kind :: id :: rest =>
       let r := match kind with
         | "mesh" => checkMesh rest
@@ -337,18 +403,19 @@ def handle (line : String) : Option String :=
         | "msgdec" => checkMsgDec rest
         | "reflect" => checkReflect rest
         | _ => "MISMATCH unknown line kind"
-      some s!"{r} {id}"
-    | _ => some "MISMATCH parse ?"
+      (st, some s!"{r} {id}")
+    | _ => (st, some "MISMATCH parse ?")
 
-partial def loop (h : IO.FS.Stream) (out : IO.FS.Stream) : IO Unit := do
+partial def loop (h : IO.FS.Stream) (out : IO.FS.Stream) (st : DState) : IO Unit := do
   let line ← h.getLine
   if line.isEmpty then return ()
-  match handle line with
+  let (st', r) := handle st line
+  match r with
   | some r => out.putStrLn r
   | none => pure ()
-  loop h out
+  loop h out st'
 
 def main : IO Unit := do
   let out ← IO.getStdout
-  loop (← IO.getStdin) out
+  loop (← IO.getStdin) out {}
   out.flush
